@@ -159,7 +159,7 @@ int epoll_pwait(int epfd, struct epoll_event* ev, int maxev, int timeout, const 
   unsigned long long it = iter_no();
   long k = npolls++;
   for (int i = 0; i < neintr; i++) if (eintr[i].k == k) {
-    long d = eintr[i].d; if (timeout > 0 && d > timeout) d = timeout; if (timeout == 0) d = 0;
+    long d = eintr[i].d; if (timeout == 0) d = 0;   /* d may exceed the timeout: a clock jump while interrupted */
     vclock_ms += d;
     printf("env poll iter=%llu timeout=%d clock=%llu done=%d -> EINTR\n", it, timeout, (unsigned long long) vclock_ms, done);
     errno = EINTR; return -1;
@@ -381,6 +381,14 @@ static void exec_op(char* text0) {
       pthread_mutex_lock(&gm); while (started == s0) pthread_cond_wait(&gc, &gm); pthread_mutex_unlock(&gm);
     } else pool_q[pool_qn++] = me;
     RET(r);
+  }
+  if (!strcmp(o, "work_null") && nw == 1) {   /* rejected synchronously: no work_cb */
+    uv_work_t* req = malloc(sizeof *req); int r = uv_queue_work(&loop, req, NULL, after_work_cb); free(req); RET(r);
+  }
+  if (!strcmp(o, "udp_send_bad") && nw == 2 && live(i) && H[i].kind == K_UDP && !uv_is_closing(H[i].ptr)) {
+    /* rejected synchronously: no destination on an unconnected socket */
+    uv_udp_send_t* req = malloc(sizeof *req); static char byte = 'x'; uv_buf_t b = uv_buf_init(&byte, 1);
+    int r = uv_udp_send(req, (uv_udp_t*) H[i].ptr, &b, 1, NULL, send_cb); free(req); RET(r);
   }
   if (!strcmp(o, "cancel") && nw == 2) {
     int r = rnum(w[1]);
